@@ -47,9 +47,17 @@ Import ListNotations. Open Scope Z_scope.
 Definition check_case := SharedMem.check_case.'''
 
 HEADER_HOPS = '''From Coq Require Import ZArith List Bool.
-From BV Require Import Lib.Cases Model.Heap Model.SharedMem Model.SharedHop.
+From BV Require Import Lib.Cases Model.Heap Model.SharedMem Model.SharedHop Model.SharedHopDrop.
 Import ListNotations. Open Scope Z_scope.
-Definition check_case := SharedHop.check_hcase.'''
+Definition check_case := SharedHopDrop.check_dcase.'''
+
+HEADER_LOCKARG = '''From Coq Require Import ZArith List Bool.
+From BV Require Import Lib.Cases Model.Heap Model.SharedMem.
+Import ListNotations. Open Scope Z_scope.
+Definition check_case := SharedMem.check_lockarg.'''
+
+SIG_RECYCLED = 'C15:storage-recycled-while-receiver-live'
+SIG_FALSY_LOCK = 'C15:falsy-lock-replaced-by-private-lock'
 
 HEADER_TRACE = '''From Coq Require Import ZArith List Bool.
 From BV Require Import Lib.Cases Model.Heap Model.SharedMem.
@@ -120,8 +128,7 @@ def rand_value(rng, t):
 def gen_case(rng, real=False):
     pg = 4096 if real else rng.choice([64, 64, 256, 4096])
     ops = []
-    live = []        # indices of live, droppable objects
-    pinned = set()   # objects that have an alias (never dropped)
+    live = []        # indices of live objects (an object and its rebuilt aliases may be dropped in any order)
     sizes = {}
     nobj = 0
     tnames = list(ALLT)
@@ -129,13 +136,12 @@ def gen_case(rng, real=False):
         r = rng.random()
         if live and r < 0.22:
             k = rng.choice(live)
-            if k not in pinned:
-                # dirty it first, most of the time
-                if sizes[k] and rng.random() < 0.8:
-                    ops.append(['write', k, 0, [rng.choice([255, 0xAA, 0x5A, 1]) for _ in range(sizes[k])]])
-                ops.append(['drop', k])
-                live.remove(k)
-                continue
+            # dirty it first, most of the time
+            if sizes[k] and rng.random() < 0.8:
+                ops.append(['write', k, 0, [rng.choice([255, 0xAA, 0x5A, 1]) for _ in range(sizes[k])]])
+            ops.append(['drop', k])
+            live.remove(k)
+            continue
         if live and r < 0.40:
             k = rng.choice(live)
             if sizes[k]:
@@ -146,8 +152,6 @@ def gen_case(rng, real=False):
         if live and r < 0.47:
             k = rng.choice(live)
             ops.append(['rebuild', k])
-            pinned.add(k)
-            pinned.add(nobj)
             sizes[nobj] = sizes[k]
             live.append(nobj)
             nobj += 1
@@ -190,6 +194,14 @@ def boundary_cases():
             ['new', 0, dict(t=t, args=[])], ['new', 1, dict(t=t, n=3)],
             ['write', 2, 0, [0xEE] * (3 * sz)], ['drop', 2], ['new', 2, dict(t=t, init=[args[0] if t not in ('Pad', 'Mixed') else args[:1]] * 3)],
             ['new', 1, dict(t=t, n=0)], ['rebuild', 1]]))
+    # an object and its rebuilt aliases dropped in every order: the block is freed (and recycled by the next object of
+    # that size) only when the last of them goes
+    for order in ([0, 1, 2], [2, 1, 0], [1, 0, 2], [0, 2, 1]):
+        ops = [['new', 0, dict(t='i', args=[7])], ['rebuild', 0], ['rebuild', 1], ['write', 2, 0, [255] * 4]]
+        for n, k in enumerate(order):
+            ops += [['drop', k], ['new', 0, dict(t='i', args=[n + 1])]]
+        ops += [['new', 1, dict(t='b', n=4)]]
+        out.append(dict(pg=64, size=64, real=False, ops=ops))
     return out
 
 
@@ -273,9 +285,7 @@ def monitor(c, out):
             touched = {k}
         elif op[0] == 'drop':
             k = op[1]
-            for a in alias.pop(k, {k}):
-                if a != k:
-                    alias[a].discard(k)
+            alias.pop(k, {k}).discard(k)        # the set is shared by all objects over the same wrapper
             live.pop(k, None)
         elif op[0] == 'write':
             k, off, data = op[1], op[2], op[3]
@@ -354,20 +364,33 @@ def gen_hop_case(rng):
     """spawn processes, allocate in any of them, send any handle from its holder to any process (most often the
     newest handle to another process: chains of hand-overs), store through any handle"""
     ops, nproc = [], 1
-    handles = []                      # dict(holder, size)
+    handles = []                      # dict(holder, size, root, live)
     for _ in range(rng.choice([5, 8, 12, 18, 26])):
         r = rng.random()
+        alive = [k for k, h in enumerate(handles) if h['live']]
         if (nproc < 6 and r < 0.15) or (nproc == 1 and r < 0.4):
             ops.append(['spawn'])
             nproc += 1
-        elif handles and nproc > 1 and r < 0.55:
-            k = len(handles) - 1 if rng.random() < 0.55 else rng.randrange(len(handles))
+        elif alive and r < 0.27:
+            # drop: a received handle at any time; an original only when nobody else still holds a handle on it
+            # (the discipline under which isolation is guaranteed; the undisciplined orders are in hop_finding_cases)
+            ok = [k for k in alive if handles[k]['root'] != k
+                  or not any(j != k and handles[j]['root'] == k for j in alive)]
+            if not ok:
+                continue
+            k = rng.choice(ok)
+            if handles[k]['size'] and rng.random() < 0.6:
+                ops.append(['write', k, 0, [rng.choice([255, 0xAA, 0x5A, 1]) for _ in range(handles[k]['size'])]])
+            ops.append(['drop', k])
+            handles[k]['live'] = False
+        elif alive and nproc > 1 and r < 0.6:
+            k = alive[-1] if rng.random() < 0.55 else rng.choice(alive)
             others = [q for q in range(nproc) if q != handles[k]['holder']]
             q = rng.choice(others) if rng.random() < 0.9 else handles[k]['holder']
             ops.append(['send', k, q])
-            handles.append(dict(holder=q, size=handles[k]['size']))
-        elif handles and r < 0.8:
-            cands = [k for k, h in enumerate(handles) if h['size']]
+            handles.append(dict(holder=q, size=handles[k]['size'], root=handles[k]['root'], live=True))
+        elif alive and r < 0.8:
+            cands = [k for k in alive if handles[k]['size']]
             if not cands:
                 continue
             k = cands[-1] if rng.random() < 0.4 else rng.choice(cands)
@@ -379,7 +402,7 @@ def gen_hop_case(rng):
             p = rng.randrange(nproc)
             kind, spec = rand_spec(rng)
             ops.append(['new', p, kind, spec])
-            handles.append(dict(holder=p, size=spec_size(kind, spec)))
+            handles.append(dict(holder=p, size=spec_size(kind, spec), root=len(handles), live=True))
     return dict(ops=ops)
 
 
@@ -404,7 +427,43 @@ def hop_boundary_cases():
     return out
 
 
+def hop_drop_cases():
+    """disciplined drops: every receiver drops its handle before the owner drops the original; the storage is then
+    recycled for a new object (zero-filled / initialised, the survivors untouched)"""
+    out = []
+    for t, args, sync in (('i', [7], True), ('d', [1.5], False), ('Pad', [77, 5], False)):
+        sz = ctypes.sizeof(ALLT[t])
+        out.append(dict(ops=[['new', 0, 0, dict(t=t, args=args, sync=sync)], ['new', 0, 0, dict(t='b', args=[3])], ['spawn'], ['spawn'],
+                             ['send', 0, 1], ['send', 2, 2], ['send', 3, 0], ['write', 4, 0, [0xEE] * sz],
+                             ['drop', 3], ['drop', 2], ['drop', 4], ['drop', 0],
+                             ['new', 0, 0, dict(t=t, args=[])], ['new', 0, 1, dict(t='B', n=sz)], ['send', 5, 2],
+                             ['write', 7, 0, [0x21]], ['drop', 1], ['new', 0, 0, dict(t='b', args=[])]]))
+    return out
+
+
+def hop_finding_cases():
+    """the owner drops the object it allocated while another handle on it is live (a rebuilt BufferWrapper has no
+    finaliser and the owner's heap does not know it), then allocates: recycled while in use"""
+    return [
+        dict(expect_finding=True,
+             ops=[['new', 0, 0, dict(t='i', args=[7])], ['spawn'], ['send', 0, 1], ['drop', 0],
+                  ['new', 0, 0, dict(t='i', args=[9])], ['write', 1, 0, [1, 1, 1, 1]]]),
+        dict(expect_finding=True,
+             ops=[['new', 0, 2, dict(t='i', init=[1, 2], sync=True)], ['spawn'], ['send', 0, 1], ['send', 1, 0], ['drop', 0],
+                  ['new', 0, 1, dict(t='h', n=4)]]),
+        dict(expect_finding=True,
+             ops=[['spawn'], ['spawn'], ['new', 1, 0, dict(t='d', args=[2.5], sync=True)], ['send', 0, 2], ['send', 1, 0],
+                  ['drop', 1], ['drop', 0], ['new', 1, 0, dict(t='Pad', args=[65, 66])], ['write', 2, 0, [3] * 8]]),
+    ]
+
+
 def hop_model_op(o):
+    if o[0] == 'drop':
+        return '(DDrop %s)' % cnat(o[1])
+    return '(DOp %s)' % hop_model_op0(o)
+
+
+def hop_model_op0(o):
     if o[0] == 'spawn':
         return 'HSpawn'
     if o[0] == 'new':
@@ -439,9 +498,10 @@ def hop_to_coq(c, out):
             head = '(-1, (-1, -1, -1), %s)' % cz(cr[2])
         else:
             head = '(%s, %s, %s)' % (cz(cr[0]), cblock(cr[1]), cz(cr[2]))
-        obs.append('(%s, %s)' % (head, clist(rec['reads'], clist)))
+        live = [(k, b) for k, b in enumerate(rec['reads']) if b is not None]
+        obs.append('(%s, %s)' % (head, clist(live, lambda r: '(%s, %s)' % (cnat(r[0]), clist(r[1])))))
     pg = mmap.PAGESIZE
-    return '((%s, %s, %s, %s) : SharedHop.hcase)' % (cz(pg), cz(pg), clist(c['ops'], hop_model_op), '[' + '; '.join(obs) + ']')
+    return '((%s, %s, %s, %s) : SharedHopDrop.dcase)' % (cz(pg), cz(pg), clist(c['ops'], hop_model_op), '[' + '; '.join(obs) + ']')
 
 
 def hop_monitor(c, out):
@@ -456,7 +516,7 @@ def hop_monitor(c, out):
 
 
 def _hop_monitor(c, out, check_backing):
-    handles = []          # dict(holder, root, hops, created, bytes, what)
+    handles = []          # dict(holder, root, hops, created, bytes, what, live)
     nproc = 1
 
     def name(k):
@@ -488,11 +548,18 @@ def _hop_monitor(c, out, check_backing):
                 return ('C15:misplaced', 'op %d: process %d allocated size %d in block %s of process %d' % (j, p, cr[2], blk, cr[0]))
             for k2, h2 in enumerate(handles):
                 c2 = h2['created']
-                if c2[0] == cr[0] and c2[1][0] == blk[0] and c2[1][1] < blk[2] and blk[1] < c2[1][2]:
+                if h2['live'] and c2[0] == cr[0] and c2[1][0] == blk[0] and c2[1][1] < blk[2] and blk[1] < c2[1][2]:
+                    if not handles[h2['root']]['live']:
+                        return (SIG_RECYCLED,
+                                'op %d: process %d allocates %s in block %s of its arena %d -- the storage of the live %s, which now reads %s '
+                                'instead of %s: process %d had dropped the object it allocated (handle %d) while that handle was still in use; '
+                                'a BufferWrapper rebuilt by unpickling has no finaliser and the owner\'s heap does not know it, so the block '
+                                'was freed and recycled -- two live shared objects share storage'
+                                % (j, p, describe(kind, spec), blk[1:], blk[0], name(k2), reads[k2], h2['bytes'], cr[0], h2['root']))
                     return ('C15:overlapping-storage', 'op %d: new object in %s overlaps %s in %s' % (j, blk, name(k2), c2[1]))
             if check_backing and not rec['backed']:
                 return ('C15:object-not-in-shared-storage', 'op %d: the new object is not the memory of its block' % j)
-            handles.append(dict(holder=p, root=k, hops=0, created=cr, what=describe(kind, spec)))
+            handles.append(dict(holder=p, root=k, hops=0, created=cr, what=describe(kind, spec), live=True))
             touched = {k}
         elif op[0] == 'send':
             k = len(handles)
@@ -504,7 +571,7 @@ def _hop_monitor(c, out, check_backing):
                         % (j, name(src), q, rec['cls'][1], rec['created'], reads[k] if len(reads) > k else None, rec['cls'][0], h['created'], h['bytes']))
             if rec.get('lock_shared') is False:
                 return ('C15:rebuilt-lock-not-shared', 'op %d: %s sent to process %d: the received wrapper\'s lock does not exclude the sender\'s' % (j, name(src), q))
-            handles.append(dict(holder=q, root=h['root'], hops=h['hops'] + 1, created=rec['created'], what=h['what']))
+            handles.append(dict(holder=q, root=h['root'], hops=h['hops'] + 1, created=rec['created'], what=h['what'], live=True))
             if check_backing and not rec['backed']:
                 return ('C15:object-not-in-shared-storage',
                         'op %d: %s sent to process %d: the received object is a private copy, not the memory of block %s '
@@ -514,15 +581,17 @@ def _hop_monitor(c, out, check_backing):
             k, off, data = op[1], op[2], op[3]
             new = list(handles[k]['bytes'])
             new[off:off + len(data)] = data
-            touched = {a for a, h in enumerate(handles) if h['root'] == handles[k]['root']}
+            touched = {a for a, h in enumerate(handles) if h['root'] == handles[k]['root'] and h['live']}
             for a in sorted(touched, key=lambda a: (a != k, a)):
                 if reads[a] != new:
                     return ('C15:write-not-visible', 'op %d: bytes %s stored at offset %d through %s are not read through %s: it reads %s, expected %s'
                             % (j, data, off, name(k), name(a), reads[a], new))
-        if len(reads) != len(handles):
-            return ('C15:driver-live-set', 'op %d: %d handles, %d read' % (j, len(handles), len(reads)))
+        elif op[0] == 'drop':
+            handles[op[1]]['live'] = False
+        if len(reads) != len(handles) or [r is not None for r in reads] != [h['live'] for h in handles]:
+            return ('C15:driver-live-set', 'op %d: handles %s, read %s' % (j, [h['live'] for h in handles], [r is not None for r in reads]))
         for k2, h2 in enumerate(handles):
-            if k2 not in touched and reads[k2] != h2['bytes']:
+            if h2['live'] and k2 not in touched and reads[k2] != h2['bytes']:
                 return ('C15:not-isolated', 'op %d %s changed the bytes of %s: %s -> %s'
                         % (j, json.dumps(op)[:200], name(k2), h2['bytes'], reads[k2]))
         for k2, h2 in enumerate(handles):
@@ -560,6 +629,9 @@ def hop_drop_op(ops, i):
             if j != i and o[1] in hmap and o[2] in pmap:
                 hmap[H] = len(hmap)
                 out.append(['send', hmap[o[1]], pmap[o[2]]])
+        elif o[0] == 'drop':
+            if j != i and o[1] in hmap:
+                out.append(['drop', hmap[o[1]]])
         elif j != i and o[1] in hmap:
             out.append(['write', hmap[o[1]], o[2], o[3]])
     return out
@@ -592,7 +664,7 @@ def shrink_hops(case, sig, budget=60):
 
 def hops(res, n):
     rng = random.Random(res.seed * 104729 + 1515)
-    cases = hop_boundary_cases() + [gen_hop_case(rng) for _ in range(n)]
+    cases = hop_boundary_cases() + hop_drop_cases() + hop_finding_cases() + [gen_hop_case(rng) for _ in range(n)]
     outs = core.run_driver('sharedmem_driver.py', dict(mode='hops', cases=cases))
     terms = [hop_to_coq(c, o) for c, o in zip(cases, outs)]
     codes, _ = core.coq_eval('C15h', HEADER_HOPS, core.chunks(terms, 100))
@@ -601,7 +673,7 @@ def hops(res, n):
     for i, (c, o) in enumerate(zip(cases, outs)):
         m = hop_monitor(c, o)
         if m:
-            if first:
+            if first and not (c.get('expect_finding') and m[0] == SIG_RECYCLED):
                 first = False
                 cut = dict(c, ops=c['ops'][:len(o['obs'])])
                 small = shrink_hops(cut, m[0])
@@ -627,12 +699,21 @@ def hops(res, n):
                 second_hops += hs[-1] >= 2
     nontrivial = {json.dumps(c, sort_keys=True) for c in cases
                   if any(o[0] == 'send' for o in c['ops']) and any(o[0] == 'write' for o in c['ops'])}
+    recycled_after_drop = sum(1 for c, o in zip(cases, outs) if not c.get('expect_finding') and any(
+        op[0] == 'new' and rec.get('created') and any(
+            op2[0] == 'new' and r2.get('created') == rec['created'] for op2, r2 in list(zip(c['ops'], o['obs']))[:j])
+        for j, (op, rec) in enumerate(zip(c['ops'], o['obs']))))
     res.add_cov(evaluations=len(cases), distinct=len(nontrivial), traces=len(cases), hand_over_histories=len(cases),
+                hand_over_histories_with_drops=sum(1 for c in cases if any(o[0] == 'drop' for o in c['ops'])),
+                hand_over_histories_recycling_a_dropped_objects_storage=recycled_after_drop,
+                owner_drops_while_receiver_lives_cases=sum(1 for c in cases if c.get('expect_finding')),
                 hand_over_op_histogram=kinds, hand_over_type_histogram=types_,
                 hand_overs_by_depth={str(k): v for k, v in sorted(depth.items())}, hand_overs_from_a_receiver=second_hops,
                 rule='hand-over histories: spawn / allocate in any process / send any handle from its holder to any process (pickle round '
                      'trip as for a spawn child; every emulated process has its own ForkingPickler registry, sharedctypes caches and heap) / '
-                     'store through any handle; per-type chains of three hand-overs; non-trivial = at least one hand-over and one store')
+                     'store through any handle / drop any handle in its holder (random histories: an original only after every other handle on '
+                     'it is gone; the other orders are the designated owner-drops-while-receiver-lives cases); per-type chains of three '
+                     'hand-overs; non-trivial = at least one hand-over and one store')
 
 
 # ------------------------------------------------------------- real chains parent -> child -> grandchild
@@ -866,6 +947,31 @@ def judge_lock_record(r):
         if not (r['sync_same'] and r['sync_pos_same']):
             return ('C15:given-lock-not-used', '%s: synchronized(obj, lock=L).get_lock() is not L (keyword: %s, positional: %s)'
                     % (tag, r['sync_same'], r['sync_pos_same']))
+    elif r['check'] == 'truth-value-lock':
+        if r['cls'] != r['want_cls']:
+            return ('C15:wrong-wrapper-class', '%s: wrapper class %s, expected %s' % (tag, r['cls'], r['want_cls']))
+        used = r['same'] and r['bound'] and r['sync_same'] and r['sync_pos_same']
+        if not used and not r['truth']:
+            return (SIG_FALSY_LOCK,
+                    '%s: L has acquire/release but is false in a boolean context; Value/Array(..., lock=L) and synchronized(obj, L) '
+                    'silently use a private %s instead (get_lock() is L: %s / %s / %s) -- SynchronizedBase.__init__ keeps the given lock '
+                    'only `if lock:`; a thread holding L does not keep another out of `with w.get_lock():` (excluded: %s)'
+                    % (tag, r.get('used_type'), r['same'], r['sync_same'], r['sync_pos_same'], r['holder_of_L_excludes_wrapper_lock']))
+        if not used or not r['holder_of_L_excludes_wrapper_lock']:
+            return ('C15:given-lock-not-used', '%s (truth value %s): the wrapper does not use L (get_lock() is L: %s; acquire/release '
+                    'bound to L: %s; synchronized(): %s/%s; a holder of L excludes the wrapper\'s lock: %s)'
+                    % (tag, r['truth'], r['same'], r['bound'], r['sync_same'], r['sync_pos_same'], r['holder_of_L_excludes_wrapper_lock']))
+    elif r['check'] == 'truth-value-lock-update':
+        if r['final'] != r['expected']:
+            if not r['truth']:
+                return (SIG_FALSY_LOCK,
+                        'lost update: v = Value(\'i\', 0, lock=L) with a lock object L whose truth value is False (it defines __bool__); updater A '
+                        'runs `with L: v.value += 1`, updater B `with v.get_lock(): v.value += 1`; B ran inside A\'s critical section (%s) and '
+                        'the value ends at %s instead of %s: SynchronizedBase.__init__ keeps the given lock only `if lock:` and silently '
+                        'made a private RLock, so the lock given is not the object\'s lock' % (r['b_ran_inside_a'], r['final'], r['expected']))
+            return ('C15:lost-update', '%s: two locked increments gave %s' % (tag, r['final']))
+    elif r['check'] == 'falsy-non-lock':
+        return None          # 0 / '' / []: not locks; what the code does with them is compared with the model only
     elif r['check'] == 'default-lock':
         if {r['true_type'], r['none_type'], r['sync_none_type']} != {'RLock'}:
             return ('C15:default-lock-not-recursive', '%s: lock=True/None/synchronized() give %s/%s/%s, not an RLock'
@@ -887,19 +993,102 @@ def judge_lock_record(r):
     return None
 
 
+def lockarg_term(r):
+    """(what was given: None / Some truth value, whether the wrapper uses the given object) for SharedMem.check_lockarg"""
+    if 'exc' in r:
+        return None
+    if r['check'] == 'explicit-lock':
+        return '(Some true, %s)' % core.cbool(r['same'] and r['sync_same'] and r['sync_pos_same'])
+    if r['check'] == 'truth-value-lock':
+        return '(Some %s, %s)' % (core.cbool(r['truth']), core.cbool(r['same'] and r['sync_same'] and r['sync_pos_same']))
+    if r['check'] == 'falsy-non-lock':
+        return '(Some false, %s)' % core.cbool(r['sync_lock_type'] != 'RLock')
+    if r['check'] == 'default-lock':
+        return '(None, false)'
+    return None
+
+
 def locks(res):
     """the lock handed to Value/Array/synchronized is the lock the wrapper uses -- for every wrapper class,
-    explicit Lock/RLock/foreign lock object, and after a pickle round trip in spawn mode"""
+    explicit Lock/RLock/foreign lock object, lock objects of either truth value, and after a pickle round trip in
+    spawn mode; which lock the wrapper ends up with is compared with the model (`if lock:`) in Coq"""
     outs = core.run_driver('sharedmem_driver.py', dict(mode='locks'))
+    falsy = []
     for r in outs:
         m = judge_lock_record(r)
-        if m:
+        if m and m[0] == SIG_FALSY_LOCK:
+            falsy.append((r, m))
+        elif m:
             res.alarms.append(dict(signature=m[0], what=m[1], replay=dict(lock_check=r)))
+    if falsy:
+        # one finding, one alarm: the lost update if it was observed, else the first identity failure
+        prim = [x for x in falsy if x[0]['check'] == 'truth-value-lock-update'] or falsy
+        ident = [x[0] for x in falsy if x[0]['check'] == 'truth-value-lock']
+        res.alarms.append(dict(signature=SIG_FALSY_LOCK,
+                               what=prim[0][1][1] + ' [get_lock() is not the given lock in %d checks: %s x %s]'
+                               % (len(ident), sorted({r['kind'] for r in ident}), sorted({r['lock'] for r in ident})),
+                               replay=dict(lock_check=prim[0][0])))
+    recs = [(r, lockarg_term(r)) for r in outs]
+    recs = [(r, t) for r, t in recs if t]
+    codes, _ = core.coq_eval('C15l', HEADER_LOCKARG, [[t for _, t in recs]])
+    for i, _ in codes:
+        res.broken.append(dict(kind='correspondence', name='which lock the wrapper keeps: model (`if lock:`) vs SynchronizedBase.__init__',
+                               detail=json.dumps(recs[i][0])[:2000]))
+    for r in outs:
+        if r['check'] == 'falsy-non-lock' and r.get('ctor') != 'AttributeError':
+            res.broken.append(dict(kind='correspondence', name='Value/Array(lock=<falsy non-lock>) no longer refuses it',
+                                   detail=json.dumps(r)[:2000]))
     kinds = sorted({r['kind'] for r in outs})
     res.add_cov(evaluations=len(outs), distinct=len(outs), traces=len(outs), lock_identity_checks=len(outs),
-                lock_identity_kinds=kinds,
-                rule='lock identity: every wrapper class x {Lock, RLock, foreign lock, default} x {direct, synchronized(), '
-                     'pickle round trip under the spawning flag}')
+                lock_identity_kinds=kinds, lock_argument_cases_compared_with_the_model=len(recs),
+                lock_checks_by_kind={k: sum(1 for r in outs if r['check'] == k) for k in sorted({r['check'] for r in outs})},
+                rule='lock identity: every wrapper class x {Lock, RLock, foreign lock, lock objects with __bool__/__len__ of either truth '
+                     'value, default, falsy non-locks} x {direct, synchronized(), pickle round trip under the spawning flag}; a scripted '
+                     'two-updater schedule for the lost update')
+
+
+# ------------------------------------------------------------- the owner drops while a REAL child uses the object
+def orphan_cases(tier, widen=False):
+    cs = [dict(method='spawn', kind='Value', t='i', first=7, second=9, store=1234, sync=False)]
+    if tier != 'quick' or widen:
+        cs += [dict(method='spawn', kind='Array', t='d', first=[0.5, 1.5], second=[2.0, 3.0], store=-1.0, sync=True),
+               dict(method='fork', kind='Value', t='i', first=7, second=9, store=1234, sync=True),
+               dict(method='forkserver', kind='Value', t='h', first=7, second=9, store=1234, sync=False)]
+    return cs
+
+
+def orphan_monitor(c, r):
+    tag = '%s%s(%s) handed to a %s child inside a holder' % ('' if c.get('sync') else 'Raw', c['kind'], c['t'], c['method'])
+    if 'error' in r or r.get('child_saw_on_entry') is None or r.get('child_saw_after_parent_allocated') is None:
+        return ('C15:chain-scenario-failed', '%s: %s' % (tag, r.get('error', 'no report from the child')))
+    if r['child_saw_on_entry'] != c['first']:
+        return ('C15:write-not-visible', '%s: the child saw %s on entry, created holding %s' % (tag, r['child_saw_on_entry'], c['first']))
+    if r['second_initial'] != c['second']:
+        return ('C15:not-initialised', '%s: the parent\'s second object was created holding %s, expected %s' % (tag, r['second_initial'], c['second']))
+    if r['child_saw_after_parent_allocated'] != c['first'] or r['second_after_child_stored'] != c['second']:
+        return (SIG_RECYCLED,
+                '%s (real processes): after the child read %s through it, the parent dropped its own reference and allocated another object '
+                '(block %s, the first was in %s); the child then read %s through ITS live object (nobody stored through it), stored %s, and the '
+                'parent\'s new object -- created holding %s -- reads %s: the block was freed and recycled while the child still used it '
+                '(a rebuilt BufferWrapper has no finaliser, the owner\'s heap does not know the child\'s handle)'
+                % (tag, r['child_saw_on_entry'], r['second_block'], r['first_block'], r['child_saw_after_parent_allocated'], c['store'],
+                   c['second'], r['second_after_child_stored']))
+    return None
+
+
+def orphans(res, widen=False):
+    cases = orphan_cases(res.tier, widen)
+    outs = core.run_driver('sharedmem_driver.py', dict(mode='orphan', cases=cases), timeout=600)
+    for c, r in zip(cases, outs):
+        m = orphan_monitor(c, r)
+        if m and m[0] == 'C15:chain-scenario-failed' and c['method'] != 'spawn':
+            res.notes.append('start method %s could not carry the owner-drops scenario in this sandbox: %s' % (c['method'], m[1]))
+            continue
+        if m:
+            res.alarms.append(dict(signature=m[0], what=m[1][:1200], replay=dict(orphan_case=c, impl=r)))
+    res.add_cov(evaluations=len(cases), distinct=len(cases), traces=len(cases), real_owner_drop_scenarios=len(cases),
+                rule='real processes: the child receives the object inside a holder, the parent drops its own reference and allocates again; '
+                     'the child\'s object must keep its value and a store through it must not change the parent\'s new object')
 
 
 def procs(res):
@@ -928,13 +1117,14 @@ def procs(res):
 
 
 def run(res):
-    res.proof_step('Props/C15.v', extra_targets=['Model/SharedMem.vo', 'Model/SharedHop.vo'], kernels_needed=['G_sharedmem'])
+    res.proof_step('Props/C15.v', extra_targets=['Model/SharedMem.vo', 'Model/SharedHop.vo', 'Model/SharedShadow.vo', 'Model/SharedHopDrop.vo'],
+                   kernels_needed=['G_sharedmem'])
     n = 110 if res.tier == 'quick' else 3000
     if res.broken:
         n = max(n, 1500)
     if res.broken:
         # the models must be there for the failing-input search even when the proof cone is not
-        core.coq_make(['Model/SharedMem.vo', 'Model/SharedHop.vo'])
+        core.coq_make(['Model/SharedMem.vo', 'Model/SharedHop.vo', 'Model/SharedHopDrop.vo'])
     correspond(res, n)
     traces(res)
     locks(res)
@@ -943,6 +1133,7 @@ def run(res):
         nh = max(nh, 400)
     hops(res, nh)
     chains(res, widen=bool(res.broken))
+    orphans(res, widen=bool(res.broken))
     if res.tier != 'quick':
         rng = random.Random(res.seed * 13 + 1515)
         cases = [gen_case(rng, real=True) for _ in range(200)]
@@ -984,6 +1175,14 @@ def replay(path):
         codes, _ = core.coq_eval('C15r', HEADER_HOPS, [[hop_to_coq(c, out)]])
         print('model agrees' if not codes else 'model disagrees')
         return 1 if (m or codes) else 0
+    if 'replay' in d and 'orphan_case' in d['replay']:
+        c = d['replay']['orphan_case']
+        out = core.run_driver('sharedmem_driver.py', dict(mode='orphan', cases=[c]))[0]
+        print('scenario:', json.dumps(c))
+        print('implementation now:', json.dumps(out)[:3000])
+        m = orphan_monitor(c, out)
+        print('monitor:', m or 'property holds on this scenario')
+        return 1 if m else 0
     if 'replay' in d and 'chain_case' in d['replay']:
         c = d['replay']['chain_case']
         out = core.run_driver('sharedmem_driver.py', dict(mode='chain', cases=[c]))[0]
